@@ -7,6 +7,7 @@ Every inserted span is bracketed by /*@+*/ ... /*@-*/; the identity audit strips
 compares what is left, token for token, with the extracted (mechanically rewritten, see REWRITES) text.
 
 Directives (one per line, leading whitespace ignored):
+  //@insert FILE                        textual inclusion of specs/FILE (a contract text shared by two templates)
   //@include FILE [verify|stub]         include another template; `stub` renders every fn of it as a contract only
   //@src PATH                           current repository file (relative to the repo root)
   //@struct NAME [keep_derive]          struct/enum definition, fields widened to pub (R8), derives dropped (R1)
@@ -144,6 +145,20 @@ def rw_for_by_ref(text):
         text = text[:m.start()] + head + text[m.end():j] + ' None => break } }' + text[j:]
         count += 1
     return text, count
+
+
+def read_template(path):
+    """template lines; `//@insert FILE` is replaced by the lines of specs/FILE (one contract text shared by two templates)"""
+    out = []
+    for ln in open(path).read().split('\n'):
+        m = re.match(r'\s*//@insert\s+(\S+)\s*$', ln)
+        if m:
+            out.extend(read_template(os.path.join(SPECS, m.group(1))))
+        else:
+            out.append(ln)
+    while out and out[-1] == '' and path.endswith('.inc'):
+        out.pop()
+    return out
 
 
 def rw_for_iter(text, nth, into=False):
@@ -1026,7 +1041,7 @@ class Unit:
 
     def process(self, template, mode='verify', cur_src=None):
         path = os.path.join(SPECS, template)
-        lines = open(path).read().split('\n')
+        lines = read_template(path)
         i = 0
         skipping = False
         plain = []
